@@ -70,6 +70,15 @@ def _impl(tier, seed, search):
         if ok:
             L.close('class-conj', r[0], b.conj(a), 1e-12, sa, inp)
             L.close('class-norm', r[1], math.sqrt(float(np.dot(a, a))), 1e-9, sa, inp)
+        # + and - with a UnitQuaternion operand: a plain Quaternion holding the element-wise sum / difference (never renormalised)
+        ua_, ub_ = inputs.unitq(g), inputs.unitq(g)
+        for nm_, fa_, want_ in (('UQ+UQ', lambda: UnitQuaternion(ua_) + UnitQuaternion(ub_), ua_ + ub_), ('UQ-UQ', lambda: UnitQuaternion(ua_) - UnitQuaternion(ub_), ua_ - ub_),
+                                ('UQ+Q', lambda: UnitQuaternion(ua_) + Quaternion(c), ua_ + c), ('Q+UQ', lambda: Quaternion(a) + UnitQuaternion(ub_), a + ub_),
+                                ('Q-UQ', lambda: Quaternion(a) - UnitQuaternion(ub_), a - ub_), ('UQ-Q', lambda: UnitQuaternion(ua_) - Quaternion(c), ua_ - c)):
+            ok, r = L.noraise(f'class-{nm_}', fa_, dict(a=ua_, b=ub_), nm_)
+            if ok:
+                L.check(f'class-{nm_}:type', type(r) is Quaternion, dict(a=ua_, b=ub_), f'{nm_} must be a plain Quaternion, got {type(r).__name__}', sig=f'class-addsub:type')
+                L.close(f'class-{nm_}', r.vec, want_, 1e-9, max(1.0, float(np.max(np.abs(want_)))), dict(a=ua_, b=ub_), what=f'{nm_} is not the element-wise result', sig='class-addsub:value')
         # 3-vector form: unit quaternions with scalar part >= 0.1
         ua, ub = inputs.unitq(g), inputs.unitq(g)
         if ua[0] < 0: ua = -ua
@@ -96,6 +105,18 @@ def _impl(tier, seed, search):
             if ok: L.close('dq-matrix', r[0], r[1], 1e-9, 8.0, inp)
             ok, r = L.noraise('dq-conj', lambda: (A.conj().vec, np.r_[b.conj(A.real.vec), b.conj(A.dual.vec)]), inp, 'DualQuaternion.conj')
             if ok: L.close('dq-conj', r[0], r[1], 1e-12, 2.0, inp)
+            # unit dual quaternions of rigid motions with rotations up to a half turn and beyond (products past 180 deg)
+            Xa = SE3(inputs.se3(g, 2)) * SE3.Rx(float(g.uniform(2.0, 3.1))); Xb = SE3(inputs.se3(g, 2)) * SE3.Rx(float(g.uniform(1.5, 3.1)))
+            def udq_prod():
+                da, db = UnitDualQuaternion(Xa), UnitDualQuaternion(Xb)
+                pr = da * db
+                return pr.vec, da.matrix() @ db.vec, pr.SE3().A, (Xa * Xb).A, ((da * db) * da).vec, (da * (db * da)).vec
+            ok, r = L.noraise('udq-product', udq_prod, dict(X=Xa.A, Y=Xb.A), 'UnitDualQuaternion * UnitDualQuaternion')
+            if ok:
+                L.close('udq-matrix', r[0], r[1], 1e-9, 8.0, dict(X=Xa.A, Y=Xb.A), what='(A*B).vec differs from A.matrix() @ B.vec for unit dual quaternions', sig='udq-product')
+                L.close('udq-SE3', r[2], r[3], 1e-9, max(1.0, float(np.max(np.abs(r[3])))), dict(X=Xa.A, Y=Xb.A), what='(UDQ(X)*UDQ(Y)).SE3() differs from X*Y', sig='udq-product')
+                sgn = 1.0 if np.dot(r[4], r[5]) >= 0 else -1.0
+                L.close('udq-assoc', r[4], sgn * r[5], 1e-9, 30.0, dict(X=Xa.A, Y=Xb.A), sig='udq-product')
             T = inputs.se3(g, 3)
             def udq_norm():
                 d_ = UnitDualQuaternion(SE3(T, check=False))
